@@ -399,7 +399,7 @@ Proof.
   induction 1; cbn.
   - constructor.
   - destruct (f x); [constructor|]; assumption.
-  - destruct (f x), (f y); try constructor; try apply Permutation_refl. apply perm_swap.
+  - destruct (f x), (f y); first [apply perm_swap|apply Permutation_refl].
   - etransitivity; eassumption.
 Qed.
 
